@@ -287,3 +287,32 @@ pub fn status_byte_ref(sc: &ctap2::StatusCode) -> u8 {
 pub fn url(s: &str) -> url::Url {
     url::Url::parse(s).expect("harness builds valid URLs")
 }
+
+/// `{:?}` and `{:#?}` of a value if (in this build of the library) its type implements Debug, else
+/// None - decided at compile time by autoref specialisation, so the same harness source compiles
+/// against builds of the library in which a type has the implementation and builds in which it has not.
+pub struct MaybeDebug<'a, T>(pub &'a T);
+pub trait RenderViaDebug {
+    fn render(&self) -> Option<String>;
+}
+impl<T: std::fmt::Debug> RenderViaDebug for &MaybeDebug<'_, T> {
+    fn render(&self) -> Option<String> {
+        Some(format!("{:?} {:#?}", self.0, self.0))
+    }
+}
+pub trait RenderNotAtAll {
+    fn render(&self) -> Option<String>;
+}
+impl<T> RenderNotAtAll for MaybeDebug<'_, T> {
+    fn render(&self) -> Option<String> {
+        None
+    }
+}
+#[macro_export]
+macro_rules! debug_if_any {
+    ($e:expr) => {{
+        #[allow(unused_imports)]
+        use $crate::util::{RenderNotAtAll, RenderViaDebug};
+        (&&$crate::util::MaybeDebug(&$e)).render()
+    }};
+}
